@@ -284,3 +284,16 @@ CLAIMED.update({
          "note": STD_NOTE + ORDER_NOTE + " The lockset rule is a may-alias-free approximation: it identifies the base by field type, not by instance.",
          "technique": "static analysis: lockset must-held dataflow with interprocedural entered-held fixpoint (K1 requires), exhaustive evaluation of extracted code over finite domains (K6), must-pass-through (K3), who-may-write (K2)"},
 })
+CLAIMED.update({
+ "C10": {"level": "other",
+         "text": "Release structure. Field lifetime over all units: for 15 (struct, destructor) pairs every field that anywhere receives an allocator result is handed to a release "
+                 "function in the destructor's call tree (direct calls and ops slots). Closure dispatch: every EV_CLOSURE_* value has a case; evaluated per closure value in the loop "
+                 "and in base teardown: the user function/finalizer is invoked exactly once and only after the base lock was released, finalizers run with current_event cleared, "
+                 "EV_CLOSURE_EVENT_FINALIZE_FREE frees the event after its finalizer and nothing else frees, teardown runs finalizers only when asked and only for finalizing "
+                 "callbacks. Once-events: the record is freed xor linked on every path of event_base_once with the matching return value; event_once_cb = callback, unlink under the "
+                 "lock, free; event_base_free_ unlinks and frees the rest without invoking them. Finalize transition (flag machine, all flag values): off every pending list, "
+                 "ACTIVE|FINALIZING, closure chosen by EVENT_FINALIZE_FREE_, result EV_FINALIZE. (The signal-loop abort on delete belongs to C07-counts.) "
+                 "Declined: use-after-free across arbitrary release orders by the application, leak freedom of whole histories, reference-count balance.",
+         "note": STD_NOTE + ORDER_NOTE + " Allocator/release functions are recognised by frozen name tables in engine/props/C10.py.",
+         "technique": "static analysis: owning-field lifetime over the destructor call tree (K11), switch exhaustiveness (K10), exactly-once typestate (K11), evaluation of extracted dispatch code per closure value (K6)"},
+})
